@@ -192,6 +192,8 @@ def _enum_strategy(tier):
         'gc': st.booleans(),
         'mode': st.sampled_from(['crash', 'crash', 'fault']),
         'prepack': st.booleans(),
+        # the storage does not keep the old file after the pack (one more removal at the end of the sequence)
+        'nokeep': st.sampled_from([False, False, True]),
         'cuts': st.lists(st.integers(1, 5000), min_size=1, max_size=3),
         'after': st.lists(st.tuples(st.just('gtxn'), st.lists(st.tuples(st.just('upd'), st.integers(0, 9)).map(list), min_size=1, max_size=2)).map(list), max_size=2),
     })
@@ -269,6 +271,9 @@ def _execute(case):
         gc = bool(case['gc'])
         datafs = os.path.join(da, 'Data.fs')
         caps = c07_pack.programs.CAPS['fs']
+        if case.get('nokeep'):
+            A.storage.pack_keep_old = False
+            out.label('pack-without-keeping-the-old-file')
         if case.get('prepack') and case['mode'] == 'crash' and len(tids) >= 3:
             # an earlier pack first: the recorded pack then finds a left-over Data.fs.old
             try:
